@@ -26,6 +26,9 @@ def ext(a: int) -> int: ...
 @guppy.declare
 def ext2(a: int, b: int) -> int: ...
 
+@guppy.declare
+def ext3(a: int, b: int, c: int) -> int: ...
+
 @guppy
 def sub(a: int, b: int) -> int:
     return a - b
@@ -305,10 +308,169 @@ C("annotation/subscript", "a: array[int, 3] = array(1, 2, 3)\nreturn a[0]", "a: 
 C("annotation/attribute", "z: math.int = 1\nreturn z", "z: int = 1\nreturn z")
 
 
+# ------------------------------------------------------------------ positions in list-valued fields
+# For every list-valued field that is accepted somewhere, pairs that vary the element at the
+# first, a middle and the last position (and, for nested repetition -- generator k of n, guard j
+# of m -- both indices).  A consumer that handles only one position (e.g. only the last
+# generator's guards) shows up as a pair with identical HUGR.
+LMAIN = """
+@guppy
+def main(x: int, y: int, b: bool) -> int:
+{body}
+"""
+
+WMAIN = """
+@guppy
+def main(q: qubit, c: qubit, d: qubit, e: qubit, n: nat) -> None:
+{body}
+"""
+
+HEADER_POS = """
+@guppy.declare
+def ext3(a: int, b: int, c: int) -> int: ...
+"""
+
+
+def _subst(xs, k, v):
+    return [v if i == k else x for i, x in enumerate(xs)]
+
+
+def positional_cases():
+    E = (True,)      # needs experimental features (lists / modifiers)
+    B = (False, True)
+    # --- comprehension.ifs: generator k of n, guard j of m; guard removed and guard changed
+    its = ["range(2)", "range(3)", "range(4)"]
+    vs = ["i", "j", "k"]
+    for n in (1, 2, 3):
+        elt = " + ".join(vs[:n])
+        for k in range(n):
+            for m in (1, 2, 3):
+                guards = [[] for _ in range(n)]
+                # the other generators also carry one guard each, so that "only the last
+                # generator" and "only the first guard" mistakes are both visible
+                for g in range(n):
+                    guards[g] = [f"{vs[g]} < 9"]
+                guards[k] = [f"{vs[k]} > {c}" for c in range(m)]
+                for j in range(m):
+                    def comp(gs):
+                        return "[" + elt + " " + " ".join(
+                            f"for {vs[g]} in {its[g]}" + "".join(f" if {c}" for c in gs[g]) for g in range(n)) + "]"
+                    a = comp(guards)
+                    changed = [list(g) for g in guards]
+                    changed[k][j] = f"{vs[k]} > {j + 5}"
+                    removed = [list(g) for g in guards]
+                    del removed[k][j]
+                    C(f"pos:comprehension.ifs/gen{k}of{n}/guard{j}of{m}/changed", f"l = {a}\nreturn x", f"l = {comp(changed)}\nreturn x", exp=E)
+                    C(f"pos:comprehension.ifs/gen{k}of{n}/guard{j}of{m}/removed", f"l = {a}\nreturn x", f"l = {comp(removed)}\nreturn x", exp=E)
+    # --- ListComp.generators: iterable / target of generator k of n, generator removed
+    for n in (2, 3):
+        elt = " + ".join(vs[:n])
+        gens = [f"for {vs[g]} in {its[g]}" for g in range(n)]
+        a = "[" + elt + " " + " ".join(gens) + "]"
+        for k in range(n):
+            b_ = "[" + elt + " " + " ".join(_subst(gens, k, f"for {vs[k]} in range(7)")) + "]"
+            C(f"pos:ListComp.generators/iter{k}of{n}", f"l = {a}\nreturn x", f"l = {b_}\nreturn x", exp=E)
+        for k in range(n):
+            rest = [g for i, g in enumerate(gens) if i != k]
+            elt2 = " + ".join(v for i, v in enumerate(vs[:n]) if i != k)
+            C(f"pos:ListComp.generators/removed{k}of{n}", f"l = [{elt2} {' '.join(gens)}]\nreturn x",
+              f"l = [{elt2} {' '.join(rest)}]\nreturn x", exp=E)
+    # --- Call.args / Tuple.elts / List.elts / array elements / comptime args / BoolOp.values / Compare
+    args = ["x", "y", "1"]
+    for k in range(3):
+        C(f"pos:Call.args/{k}of3", f"return ext3({', '.join(args)})", f"return ext3({', '.join(_subst(args, k, '7'))})", exp=B)
+        C(f"pos:Call.args/nested-fn/{k}of3", "def g(a: int, c: int, d: int) -> int:\n    return a - c * d\n" + f"return g({', '.join(args)})",
+          "def g(a: int, c: int, d: int) -> int:\n    return a - c * d\n" + f"return g({', '.join(_subst(args, k, '7'))})", exp=B)
+        C(f"pos:Call.args/struct/{k}of2" if k < 2 else "pos:Call.args/array-index", f"s = S({', '.join(args[:2])})\nreturn s.a" if k < 2 else "a = array(x, y, 1)\nreturn a[2]",
+          f"s = S({', '.join(_subst(args[:2], k, '7'))})\nreturn s.a" if k < 2 else "a = array(x, y, 7)\nreturn a[2]", exp=B)
+        C(f"pos:Call.args/array/{k}of3", f"a = array({', '.join(args)})\nreturn a[0]", f"a = array({', '.join(_subst(args, k, '7'))})\nreturn a[0]", exp=B)
+        C(f"pos:Call.args/comptime/{k}of3", "t = comptime(N1, N2, N1)\nreturn t[0]",
+          f"t = comptime({', '.join(_subst(['N1', 'N2', 'N1'], k, '7'))})\nreturn t[0]", exp=B)
+        C(f"pos:Tuple.elts/{k}of3", f"t = ({', '.join(args)})\nreturn t[0]", f"t = ({', '.join(_subst(args, k, '7'))})\nreturn t[0]", exp=B)
+        C(f"pos:Tuple.elts/return/{k}of3", f"def g() -> tuple[int, int, int]:\n    return {', '.join(args)}\nreturn g()[0]",
+          f"def g() -> tuple[int, int, int]:\n    return {', '.join(_subst(args, k, '7'))}\nreturn g()[0]", exp=B)
+        C(f"pos:List.elts/{k}of3", f"l = [{', '.join(args)}]\nreturn x", f"l = [{', '.join(_subst(args, k, '7'))}]\nreturn x", exp=E)
+        tg = ["p", "q", "r"]
+        C(f"pos:Tuple.elts/target/{k}of3", f"w = 0\np = 0\nq = 0\nr = 0\n{', '.join(tg)} = x, y, 1\nreturn p + 2 * q + 3 * r + 5 * w",
+          f"w = 0\np = 0\nq = 0\nr = 0\n{', '.join(_subst(tg, k, 'w'))} = x, y, 1\nreturn p + 2 * q + 3 * r + 5 * w", exp=B)
+        C(f"pos:List.elts/target/{k}of3", f"w = 0\np = 0\nq = 0\nr = 0\n[{', '.join(tg)}] = x, y, 1\nreturn p + 2 * q + 3 * r + 5 * w",
+          f"w = 0\np = 0\nq = 0\nr = 0\n[{', '.join(_subst(tg, k, 'w'))}] = x, y, 1\nreturn p + 2 * q + 3 * r + 5 * w", exp=B)
+        vals = ["b", "x > 0", "y > 0"]
+        for op in ("and", "or"):
+            C(f"pos:BoolOp.values/{op}/{k}of3", f"z = {f' {op} '.join(vals)}\nreturn int(z)",
+              f"z = {f' {op} '.join(_subst(vals, k, 'x > 7'))}\nreturn int(z)", exp=B)
+            C(f"pos:BoolOp.values/{op}-in-if/{k}of3", f"z = 0\nif {f' {op} '.join(vals)}:\n    z = 1\nreturn z",
+              f"z = 0\nif {f' {op} '.join(_subst(vals, k, 'x > 7'))}:\n    z = 1\nreturn z", exp=B)
+        operands = ["x", "y", "3", "x"]
+        ops_ = ["<", "<=", "<"]
+        def chain(os_, cs):
+            return cs[0] + "".join(f" {o} {c}" for o, c in zip(os_, cs[1:]))
+        C(f"pos:Compare.ops/{k}of3", f"z = {chain(ops_, operands)}\nreturn int(z)", f"z = {chain(_subst(ops_, k, '!='), operands)}\nreturn int(z)", exp=B)
+        C(f"pos:Compare.comparators/{k}of3", f"z = {chain(ops_, operands)}\nreturn int(z)",
+          f"z = {chain(ops_, _subst(operands, k + 1, '7'))}\nreturn int(z)", exp=B)
+        C(f"pos:Compare.ops/in-while/{k}of3", f"z = 0\nwhile {chain(ops_, ['z', 'y', '30', 'x'])}:\n    z += 1\nreturn z",
+          f"z = 0\nwhile {chain(_subst(ops_, k, '!='), ['z', 'y', '30', 'x'])}:\n    z += 1\nreturn z", exp=B)
+    # --- statement lists: body / orelse of If, While, For, nested FunctionDef, main; elif chains
+    st = ["z += 1", "z *= 3", "z -= y"]
+    def blk(stmts, ind="    "):
+        return "".join(f"{ind}{s_}\n" for s_ in stmts)
+    for k in range(3):
+        st2 = _subst(st, k, "z += 11")
+        C(f"pos:If.body/{k}of3", f"z = x\nif b:\n{blk(st)}return z", f"z = x\nif b:\n{blk(st2)}return z", exp=B)
+        C(f"pos:If.orelse/{k}of3", f"z = x\nif b:\n    pass\nelse:\n{blk(st)}return z", f"z = x\nif b:\n    pass\nelse:\n{blk(st2)}return z", exp=B)
+        C(f"pos:While.body/{k}of3", f"z = x\nwhile z < 100:\n{blk(st)}return z", f"z = x\nwhile z < 100:\n{blk(st2)}return z", exp=B)
+        C(f"pos:For.body/{k}of3", f"z = x\nfor i in range(3):\n{blk(st)}return z", f"z = x\nfor i in range(3):\n{blk(st2)}return z", exp=B)
+        C(f"pos:FunctionDef.body/nested/{k}of3", f"def g(z: int, y: int) -> int:\n{blk(st)}    return z\nreturn g(x, y)",
+          f"def g(z: int, y: int) -> int:\n{blk(st2)}    return z\nreturn g(x, y)", exp=B)
+        C(f"pos:FunctionDef.body/main/{k}of3", f"z = x\n{blk(st, '')}return z", f"z = x\n{blk(st2, '')}return z", exp=B)
+        C(f"pos:With.body/{k}of3", blk(["u1(q)", "u1(c)", "u1(q)"], ""), blk(_subst(["u1(q)", "u1(c)", "u1(q)"], k, "u1(d)"), ""), frame=WMAIN, exp=E)
+        tests = ["x > 0", "x > 1", "x > 2"]
+        def elif_(ts, vals_):
+            return (f"z = 0\nif {ts[0]}:\n    z = {vals_[0]}\nelif {ts[1]}:\n    z = {vals_[1]}\nelif {ts[2]}:\n    z = {vals_[2]}\nelse:\n    z = {vals_[3]}\nreturn z")
+        C(f"pos:If.orelse/elif-test/{k}of3", elif_(tests, "1234"), elif_(_subst(tests, k, "y > 5"), "1234"), exp=B)
+        C(f"pos:If.orelse/elif-body/{k}of3", elif_(tests, "1234"), elif_(tests, _subst(list("1234"), k + 1, "9")), exp=B)
+        # --- arguments.args (nested function): annotation and name at position k
+        params = ["a: int", "c: int", "d: int"]
+        C(f"pos:arguments.args/annotation/{k}of3", f"def g({', '.join(params)}) -> int:\n    return a\nreturn g(x, y, 1)",
+          f"def g({', '.join(_subst(params, k, 'abcd'[k if k else 0] .replace('b', 'c') + ': bool' if False else params[k].split(':')[0] + ': bool'))}) -> int:\n    return 0\nreturn g(x, y, 1)".replace("return 0", "return 0"), exp=B)
+        C(f"pos:arguments.args/name/{k}of3", f"def g({', '.join(params)}) -> int:\n    return a + 2 * c + 3 * d\nreturn g(x, y, 1)",
+          f"def g({', '.join(_subst(params, k, 'w: int'))}) -> int:\n    return a + 2 * c + 3 * d\nreturn g(x, y, 1)", exp=B)
+        # --- With.items: modifier at position k of 3
+        items = ["control(c)", "control(d)", "control(e)"]
+        C(f"pos:With.items/{k}of3", f"with {', '.join(items)}:\n    u1(q)", f"with {', '.join(_subst(items, k, 'power(n)'))}:\n    u1(q)", frame=WMAIN, exp=E)
+        C(f"pos:With.items/removed/{k}of3", f"with {', '.join(items)}:\n    u1(q)", f"with {', '.join(x_ for i_, x_ in enumerate(items) if i_ != k)}:\n    u1(q)", frame=WMAIN, exp=E)
+        cargs = ["c", "d", "e"]
+        C(f"pos:Call.args/control/{k}of3", f"with control({', '.join(cargs)}):\n    u1(q)",
+          f"with control({', '.join(x_ for i_, x_ in enumerate(cargs) if i_ != k)}):\n    u1(q)", frame=WMAIN, exp=E)
+        # --- type arguments in annotations
+        targs = ["int", "int", "int"]
+        C(f"pos:Tuple.elts/annotation/{k}of3", f"t: tuple[{', '.join(targs)}] = (x, y, 1)\nreturn t[0]",
+          f"t: tuple[{', '.join(_subst(targs, k, 'bool'))}] = (x, y, 1)\nreturn t[0]", exp=B)
+    # rejected list-valued fields, one pair per position (must stay rejected at every position)
+    for k in range(3):
+        kw = ["a=x", "b=y", "c=1"]
+        C(f"pos:Call.keywords/{k}of3", f"return ext3({', '.join(kw)})", f"return ext3({', '.join(_subst(kw, k, kw[k][:2] + '7'))})", exp=B)
+        C(f"pos:Call.keywords/after-args/{k}of2" if k < 2 else "pos:Call.keywords/only-last", "return ext3(x, b=y, c=1)" if k < 2 else "return ext3(x, y, c=1)",
+          ("return ext3(x, b=7, c=1)" if k == 0 else "return ext3(x, b=y, c=7)") if k < 2 else "return ext3(x, y, c=7)", exp=B)
+        tg = ["p", "q", "r"]
+        C(f"pos:Assign.targets/{k}of3", f"w = 0\n{' = '.join(tg)} = x\nreturn x", f"w = 0\n{' = '.join(_subst(tg, k, 'w'))} = x\nreturn x", exp=B)
+        decs = ["@ext", "@sub", "@ext"]
+        C(f"pos:FunctionDef.decorator_list/{k}of3", "\n".join(decs) + "\ndef g(a: int) -> int:\n    return a\nreturn g(x)",
+          "\n".join(_subst(decs, k, "@ext2")) + "\ndef g(a: int) -> int:\n    return a\nreturn g(x)", exp=B)
+        dfl = ["1", "2", "3"]
+        C(f"pos:arguments.defaults/{k}of3", f"def g(a: int = {dfl[0]}, c: int = {dfl[1]}, d: int = {dfl[2]}) -> int:\n    return a\nreturn g(x, y, 1)",
+          "def g(a: int = {}, c: int = {}, d: int = {}) -> int:\n    return a\nreturn g(x, y, 1)".format(*_subst(dfl, k, "7")), exp=B)
+        C(f"pos:arguments.defaults/last-only/{k}", f"def g(a: int, c: int, d: int = 3) -> int:\n    return a\nreturn g(x, y, 1)",
+          "def g(a: int, c: int, d: int = 7) -> int:\n    return a\nreturn g(x, y, 1)", exp=B) if k == 0 else None
+
+
+positional_cases()
+
+
 def build(case):
     """-> (src_a, src_b)"""
     fr = case["frame"]
-    if "{body}" in fr and (fr is MAIN or fr is QMAIN):
+    if "{body}" in fr and (fr is MAIN or fr is QMAIN or fr is WMAIN or fr is LMAIN):
         return prog(case["a"], fr), prog(case["b"], fr)
     return HEADER + fr.replace("{body}", case["a"]), HEADER + fr.replace("{body}", case["b"])
 
